@@ -1,7 +1,187 @@
-(* commands for the macro model *)
+(* commands for the macro model (coq/Model/MacrosModel.v). Glue only:
+   parsing of the case fields, printing of the answers, FNV hashing. *)
 open Bbm_model
 open Bbm_util
 
+(* "block:3+back:1" = backsymbol(1) over block(3) over the base program.
+   Every layer receives the SAME (S,C) params given in the command.
+   "backfix:k" (model only) = backsymbol logic with split_at(self.cells).
+   Result: logics OUTERMOST first. *)
+let logics_of_spec (spec : string) (params : n * n) : logic list =
+  let one e =
+    match split ':' e with
+    | ["block"; k] -> unwrap (logic_new LkBlock false (n_of_string k) params)
+    | ["back"; k] -> unwrap (logic_new LkBacksymbol false (n_of_string k) params)
+    | ["backfix"; k] -> unwrap (logic_new LkBacksymbol true (n_of_string k) params)
+    | _ -> failwith "bad macro spec" in
+  (* construction order = base outward; a panic in a constructor is a PANIC of the case *)
+  List.rev (List.map one (split '+' spec))
+
+let params_of s = match split ',' s with
+  | [a; b] -> (n_of_string a, n_of_string b)
+  | _ -> failwith "bad params"
+
+let slots_of_field (s : string) : slot list =
+  if s = "" then [] else
+    List.map (fun q -> match split ',' q with
+        | [a; b] -> (n_of_string a, n_of_string b)
+        | _ -> failwith "bad slot") (split ';' s)
+
+let field_of_answer = function
+  | Panic -> "P"
+  | Ok None -> "-"
+  | Ok (Some i) -> field_of_instr i
+
+let n_compare a b = match N.compare a b with Eq -> 0 | Lt -> -1 | Gt -> 1
+
+(* colours whose cache entry is dumped: 0..31, the colours of the queries and
+   of the answers and, for an outermost backsymbol layer, the backspan colour
+   (state / 2) mod backsymbols of every query state and answer state *)
+let dump_candidates (outer : logic) (qs : slot list) (ans : (instr option) outcome list) : n list =
+  let base = List.init 32 n_of_int in
+  let insts = List.concat_map (function Ok (Some i) -> [i] | _ -> []) ans in
+  let cols = List.map snd qs @ List.map (fun ((co, _), _) -> co) insts in
+  let sts = List.map fst qs @ List.map (fun (_, tr) -> tr) insts in
+  let bks = match outer.lg_kind with
+    | LkBacksymbol when outer.lg_backsymbols <> N0 ->
+      List.map (fun st -> snd (N.div_eucl (fst (N.div_eucl st (n_of_int 2))) outer.lg_backsymbols)) sts
+    | _ -> [] in
+  List.sort_uniq n_compare (base @ cols @ bks)
+
+let dump_state (outer : logic) (m : mstate) qs ans : string =
+  let cands = dump_candidates outer qs ans in
+  let entries = List.concat_map (fun c ->
+      match color_to_tape m c with
+      | Ok t -> [string_of_n c ^ "=" ^ field_of_nlist t]
+      | Panic -> []) cands in
+  "c2t:" ^ String.concat ";" entries ^ "|memo:" ^ field_of_comp m.ms_instrs
+
+let cmd_macro prog params spec queries =
+  let comp = comp_of_text prog in
+  let lgs = logics_of_spec spec (params_of params) in
+  let qs = slots_of_field queries in
+  let (ans, st) = stack_queries comp lgs (stack_new lgs) qs in
+  String.concat ";" (List.map field_of_answer ans) ^ "|"
+  ^ dump_state (List.hd lgs) (List.hd st) qs ans
+
+(* model only, experiment: like `macro` but a panicking query is rolled back
+   (the whole stack state is restored).  Used to show that the real code
+   does NOT behave like that for nested macros. *)
+let cmd_macro_rollback prog params spec queries =
+  let comp = comp_of_text prog in
+  let lgs = logics_of_spec spec (params_of params) in
+  let qs = slots_of_field queries in
+  let st = ref (stack_new lgs) in
+  let ans = List.map (fun q ->
+      let (r, st') = stack_get comp lgs !st q in
+      (match r with Panic -> () | _ -> st := st');
+      r) qs in
+  String.concat ";" (List.map field_of_answer ans) ^ "|"
+  ^ dump_state (List.hd lgs) (List.hd !st) qs ans
+
+let cmd_macro2 prog params spec qa qb =
+  let comp = comp_of_text prog in
+  let lgs = logics_of_spec spec (params_of params) in
+  let (ra, rb) = stack_queries2 comp lgs (stack_new lgs) (stack_new lgs)
+      (slots_of_field qa) (slots_of_field qb) in
+  String.concat ";" (List.map field_of_answer ra) ^ "|"
+  ^ String.concat ";" (List.map field_of_answer rb)
+
+let log_string (log : (slot * (instr option) outcome) list) : string =
+  String.concat ";" (List.rev_map (fun (sl, a) -> field_of_slot sl ^ ">" ^ field_of_answer a) log)
+
+let run_macro prog params spec n =
+  let comp = comp_of_text prog in
+  let lgs = logics_of_spec spec (params_of params) in
+  macro_run comp lgs (n_of_string n)
+
+let cmd_macrorun prog params spec n =
+  let (stop, s) = run_macro prog params spec n in
+  String.concat "|" [
+    string_of_n s.rn_cycles;
+    (match stop with
+     | RsLimit -> "limit" | RsUndef sl -> "undef:" ^ field_of_slot sl
+     | RsSpinout -> "spinout" | RsPanic -> "P");
+    fnv (log_string s.rn_log);
+    field_of_tape s.rn_tape ]
+
+(* model only: the distinct slots queried by a macrorun, in first-query order *)
+let cmd_macroslots prog params spec n =
+  let (_, s) = run_macro prog params spec n in
+  let seen = Hashtbl.create 64 in
+  let out = ref [] in
+  List.iter (fun (sl, _) ->
+      let k = field_of_slot sl in
+      if not (Hashtbl.mem seen k) then (Hashtbl.add seen k (); out := k :: !out))
+    (List.rev s.rn_log);
+  String.concat ";" (List.rev !out)
+
+(* model only: the full log of a macrorun *)
+let cmd_macrolog prog params spec n =
+  let (_, s) = run_macro prog params spec n in
+  log_string s.rn_log
+
+(* model only, test generation: breadth-first closure of the slots whose
+   colours are (or become) known to the outermost converter, starting from
+   colour 0; prints the queries in the order made (at most maxq). *)
+let cmd_macroclosure prog params spec maxq =
+  let comp = comp_of_text prog in
+  let (bs, bc) = params_of params in
+  let lgs = logics_of_spec spec (bs, bc) in
+  let outer = List.hd lgs in
+  let maxq = int_of_string maxq in
+  let seen = Hashtbl.create 64 in
+  let queue = Queue.create () in
+  let push sl =
+    let k = field_of_slot sl in
+    if not (Hashtbl.mem seen k) then (Hashtbl.add seen k (); Queue.add sl queue) in
+  let nstates = int_of_n bs in
+  let ncolors = int_of_n bc in
+  (match outer.lg_kind with
+   | LkBlock -> for s = 0 to 2 * nstates - 1 do push (n_of_int s, N0) done
+   | LkBacksymbol ->
+     let b = int_of_n outer.lg_backsymbols in
+     for s = 0 to nstates - 1 do
+       for e = 0 to 1 do
+         for c = 0 to ncolors - 1 do push (n_of_int (2 * (s * b) + e), n_of_int c) done
+       done
+     done);
+  let st = ref (stack_new lgs) in
+  let out = ref [] in
+  let nq = ref 0 in
+  while not (Queue.is_empty queue) && !nq < maxq do
+    let sl = Queue.pop queue in
+    incr nq;
+    out := field_of_slot sl :: !out;
+    let (r, st') = stack_get comp lgs !st sl in
+    st := st';
+    (match r with
+     | Ok (Some ((co, _), tr)) ->
+       (match outer.lg_kind with
+        | LkBlock -> for s = 0 to 2 * nstates - 1 do push (n_of_int s, co) done
+        | LkBacksymbol ->
+          let t = int_of_n tr in
+          for c = 0 to ncolors - 1 do
+            push (n_of_int t, n_of_int c);
+            push (n_of_int (t lxor 1), n_of_int c)
+          done)
+     | _ -> ())
+  done;
+  String.concat ";" (List.rev !out)
+
+let cmd_macroparams params spec =
+  let lgs = logics_of_spec spec (params_of params) in
+  let (s, c) = unwrap (macro_params (List.hd lgs)) in
+  string_of_n s ^ "," ^ string_of_n c
+
 let dispatch (fields : string list) : string option =
   match fields with
+  | ["macro"; prog; params; spec; queries] -> Some (cmd_macro prog params spec queries)
+  | ["macro_rollback"; prog; params; spec; queries] -> Some (cmd_macro_rollback prog params spec queries)
+  | ["macro2"; prog; params; spec; qa; qb] -> Some (cmd_macro2 prog params spec qa qb)
+  | ["macrorun"; prog; params; spec; n] -> Some (cmd_macrorun prog params spec n)
+  | ["macroslots"; prog; params; spec; n] -> Some (cmd_macroslots prog params spec n)
+  | ["macrolog"; prog; params; spec; n] -> Some (cmd_macrolog prog params spec n)
+  | ["macroclosure"; prog; params; spec; maxq] -> Some (cmd_macroclosure prog params spec maxq)
+  | ["macroparams"; params; spec] -> Some (cmd_macroparams params spec)
   | _ -> None
